@@ -27,6 +27,12 @@ type c05Case struct {
 	Ending string     `json:"ending"` // del | release | silence | hbfail | srr404
 	Ops    []model.Op `json:"ops"`
 	Cycles int        `json:"cycles"`
+	// InFlight (ending hbfail only): a Session Establishment asking for a UE address and an F-TEID is sent
+	// LeadMs before the instant at which the agent gives the peer up, while the datapath stand-in serves
+	// every command DelayMs late - the teardown then begins while that request is being handled
+	InFlight bool `json:"inflight,omitempty"`
+	LeadMs   int  `json:"lead_ms,omitempty"`
+	DelayMs  int  `json:"delay_ms,omitempty"`
 }
 
 func c05Sess(idx int, alloc, choose bool, bad string) model.Op {
@@ -70,6 +76,10 @@ func genC05(t *rapid.T) c05Case {
 	capN := 6
 	if c.Pool == "10.250.0.4/30" {
 		capN = 2
+	}
+	if c.Ending == "hbfail" && rapid.Bool().Draw(t, "inflight") {
+		c.InFlight, c.LeadMs, c.DelayMs = true, rapid.IntRange(0, 14).Draw(t, "lead"), rapid.SampledFrom([]int{5, 15}).Draw(t, "delay")
+		capN-- // room for the in-flight establishment
 	}
 	c.Cycles = capN + 2
 	c.Ops = append(c.Ops, opAssoc(0, 1))
@@ -282,7 +292,32 @@ func runC05(c c05Case, ev *Ev) error {
 		}
 	case "silence", "hbfail":
 		if c.Ending == "hbfail" {
+			since := time.Now()
 			p.P.SetOnHB(func(int, uint32) (bool, time.Duration) { return false, 0 })
+			if c.InFlight {
+				d := time.Duration(c.DelayMs) * time.Millisecond
+				if r.B != nil {
+					r.B.Inject(func(b *rig.Bessd) { b.Delay = func(string, string) time.Duration { return d } })
+				} else {
+					r.P4.SetDelay(func() time.Duration { return d })
+				}
+				// the first heartbeat that goes unanswered is transmitted 1 + 2 times, 60 ms apart, and given up
+				// 60 ms after the last transmission
+				var verdict time.Time
+				for w := time.Now().Add(3 * time.Second); verdict.IsZero() && time.Now().Before(w); time.Sleep(time.Millisecond) {
+					for _, q := range p.P.HBSeen() {
+						if q.TS.After(since) {
+							verdict = q.TS.Add(180 * time.Millisecond)
+							break
+						}
+					}
+				}
+				if !verdict.IsZero() {
+					time.Sleep(time.Until(verdict.Add(-time.Duration(c.LeadMs) * time.Millisecond)))
+					op := c05Sess(500, true, true, "")
+					_ = p.P.Send(model.Establishment(0x7e0001, p.NodeID, op.CPSEID, p.IP, op))
+				}
+			}
 		}
 		// wait until the agent has declared the peer dead: its sessions leave the datapath
 		deadline := time.Now().Add(15 * time.Second)
@@ -305,6 +340,17 @@ func runC05(c c05Case, ev *Ev) error {
 			s.Live = false
 		}
 		p.Assoc = false
+		if c.InFlight {
+			if r.B != nil {
+				r.B.Inject(func(b *rig.Bessd) { b.Delay = nil })
+				r.B.WaitQuiet(3 * time.Second)
+			} else {
+				r.P4.SetDelay(nil)
+				r.P4.WaitQuiet(3 * time.Second)
+			}
+			time.Sleep(100 * time.Millisecond)
+			p.P.Drain()
+		}
 	}
 	if err := c05Invariant(r, run, c, "after ending by "+c.Ending); err != nil {
 		return err
